@@ -12,4 +12,5 @@ CONSTANTS
   Depth = 5
   ProbesLast = FALSE
   Extras = {}
+  ActorKinds = {"begin", "stmt", "fail", "set", "prep", "copyin", "copyin2", "big", "slow", "local", "reset1", "commit", "copydone", "copyfail"}
 INVARIANT Emit
